@@ -373,6 +373,24 @@ def check_routes(d):
                     if why or w:
                         case.bad("utils_from_dense", (why or f"warned: {w[0].message}")[:300], **f)
 
+    # ---- from_blocks must refuse blocks that disagree about the size of a charge
+    for ax in range(nd):
+        by_charge = {}
+        for s in B:
+            by_charge.setdefault(s[ax], []).append(s)
+        shared = [ss for ss in by_charge.values() if len(ss) > 1]
+        if shared:
+            s_bad = shared[0][-1]
+            Bbad = dict(B)
+            shp = list(np.shape(B[s_bad]))
+            shp[ax] += 1
+            Bbad[s_bad] = np.ones(tuple(shp), dtype=dtype)
+            kw = dict(symmetry_variants(sym, kind)[0][1])
+            if odd:
+                kw["oddpos"] = oddpos
+            case.must_raise("from_blocks_inconsistent_sizes", {"route": "from_blocks", "axis": ax}, cls.from_blocks, Bbad, duals, charge=charge, **kw)
+            break
+
     fp = ("routes", sym, fermionic, kind, tuple((tuple(sorted(cm.items())), dl) for cm, dl in tables), charge, tuple(sorted(sectors)), dtype)
     return {"fingerprint": fp, "nontrivial": bool(B), "failures": case.fails[:8],
             "sample": {"sym": sym, "kind": kind, "fermionic": fermionic, "indices": spec["indices"], "charge": spec["charge"], "constructor_calls": case.ncalls}}
@@ -493,7 +511,11 @@ def check_roundtrip(d):
         if ok3 and not np.array_equal(np.asarray(again), want):
             case.bad("to_dense_idempotent", "to_dense(from_dense(to_dense(x))) != to_dense(x)")
     if sym in SYMS_STATIC and not (fermionic and x.oddpos):
-        ok4, z = case.call({"route": "utils.from_dense"}, sr.utils.from_dense, src, sym, sorted_labels(tables), duals, fermionic=fermionic, charge=x.charge)
+        with warnings.catch_warnings(record=True) as w4:
+            warnings.simplefilter("always")
+            ok4, z = case.call({"route": "utils.from_dense"}, sr.utils.from_dense, src, sym, sorted_labels(tables), duals, fermionic=fermionic, charge=x.charge)
+        if ok4 and w4:
+            case.bad("roundtrip_warns", str(w4[0].message)[:200], route="utils.from_dense")
         if ok4:
             eq, msg = arrays_equal(z, x, why=True)
             if not eq or type(z) is not (FERMI_CLS if fermionic else ABELIAN_CLS)[sym]:
